@@ -45,7 +45,7 @@ def rotate(mesh : Mesh, rot : Rotation, orig : Vec = None) -> Mesh:
         orig = Vec.zeros(3)
 
     for i in mesh.id_vertices:
-        mesh.vertices[i] = orig + rot.apply(mesh.vertices[i] - orig)
+        mesh.vertices[i] = Vec(orig + rot.apply(mesh.vertices[i] - orig)) # stays a Vec also when orig is a tuple / list / plain array
     return mesh
 
 def scale(mesh : Mesh, factor : float, orig : Vec = None) -> Mesh:
